@@ -285,3 +285,28 @@ func (r *Ring) Sum() int {
 	}
 	return s
 }
+
+// a run of if statements that always fall through (translated with "join_ifs")
+func Clamp3(a, b, c int, p Pt) (int, int, Pt) {
+	if a < 0 {
+		a = 0
+	}
+	if b > 9 {
+		b = 9
+		a++
+	}
+	if c == 0 {
+		c = 1
+	} else {
+		c--
+		b += c
+	}
+	if len(p.Tag) > 0 && p.Tag[0] == 7 {
+		p.X, p.Y = p.Y, p.X
+		p.Tag = p.Tag[1:]
+	}
+	if a > b {
+		a, b = b, a
+	}
+	return a + b, c, p
+}
